@@ -175,6 +175,15 @@ func (r *Report) Finish(verifDir string, ctx *Ctx, loadErr error) int {
 		}
 	}
 	nObl := nHeld + nKnown + len(viol)
+	if r.Trusted == nil {
+		r.Trusted = []string{"go/parser + go/types (type-checked program)", "golang.org/x/tools v0.29.0 go/ssa lowering and VTA call graph", "the reviewed instance tables in /verif/checker/rules (each entry carries its reason)"}
+	}
+	if r.Assume == nil {
+		r.Assume = []string{}
+	}
+	if r.Notes == nil {
+		r.Notes = []string{}
+	}
 
 	// samples: first obligations of each rule, violations first
 	var samples []Obligation
